@@ -717,6 +717,36 @@ def _variants(cname, mname, kind, sig, rdesc, full):
             v = [list(x) for x in base]
             v[i] = [n, alt]
             out.append(v)
+    # a second base in which every object parameter is a plain number (the "number fast paths"), and each boolean
+    # option flipped on it: methods often take another branch for (numbers, option off) - seeded change C07-J
+    if full:
+        def first_number(pl):
+            for s_ in pl:
+                if s_[0] == 'lit' and isinstance(s_[1], (int, float)) and not isinstance(s_[1], bool):
+                    return s_
+            return None
+        nums = {i: first_number(pl) for i, (n, pl) in enumerate(pools) if n in OBJ_PARAMS}
+        if nums and all(v is not None for v in nums.values()):
+            base2 = [list(x) for x in base]
+            for i, v in nums.items():
+                base2[i] = [pools[i][0], v]
+            if len(nums) >= 2:
+                # different numbers, so that a range (lower, upper) is not empty
+                lits = sorted({tuple(s_) for i in nums for s_ in pools[i][1] if s_[0] == 'lit' and isinstance(s_[1], (int, float))
+                               and not isinstance(s_[1], bool)}, key=lambda t: t[1])
+                if len(lits) >= 2:
+                    ks = sorted(nums)
+                    base2[ks[0]] = [pools[ks[0]][0], list(lits[0])]
+                    base2[ks[-1]] = [pools[ks[-1]][0], list(lits[-1])]
+            if base2 != base:
+                out.append(base2)
+                for i, (n, pl) in enumerate(pools):
+                    if n in BOOL_PARAMS:
+                        for alt in pl[1:]:
+                            if alt[0] == 'lit' and isinstance(alt[1], bool):
+                                v = [list(x) for x in base2]
+                                v[i] = [n, alt]
+                                out.append(v)
     # aliasing: the same object for every object parameter
     objp = [i for i, (n, pl) in enumerate(pools) if ['self'] in pl]
     if len(objp) >= 2:
@@ -777,6 +807,13 @@ def select(calls, rng, tier, n=None):
             continue
         for _ in range(8):
             chosen.add(g[rng.randrange(len(g))])
+    # the calls in which every object parameter is a plain number and a boolean option is switched off run completely
+    for i, d in enumerate(calls):
+        a = d['args']
+        if (len(a) >= 2 and all(x[1][0] in ('lit', 'omit') for x in a) and any(x[1] == ['lit', False] for x in a)
+                and any(x[0] in OBJ_PARAMS and x[1][0] == 'lit' and isinstance(x[1][1], (int, float))
+                        and not isinstance(x[1][1], bool) for x in a)):
+            chosen.add(i)
     chosen.update(rng.sample(range(len(calls)), n))
     return [calls[i] for i in sorted(chosen)]
 
